@@ -185,7 +185,7 @@ def run(rep):
     rep.assumptions = ["std.trace output is not compared across histories (memoised thunks legitimately do not re-emit)",
                        "a request whose fresh outcome is StackOverflow may succeed on the shared state with the value a larger "
                        "limit gives (memoised sub-results shorten later depth): known finding c11:memoised-depth"]
-    vlib.prelude(rep, extra_modules=['RsjProps.C04Eval'])
+    vlib.prelude(rep, extra_modules=['RsjProps.C04Eval', 'RsjProps.C11Eval'])
     rng = rep.rng
     quick = rep.tier == 'quick'
     gen = G.Gen(rng, max_depth=3, allow_std=True)
